@@ -12,24 +12,25 @@ every source (any combination of loaded attributes).
   nothing: same state (values, history, pending set, database), same result, no SQL.
 * `merge_noload_no_sql_no_change`, `merge_noload_rejects` — `load=False`.
 * `merge_sql_bound` — at most one SELECT, none when the identity is present.
+* `merge_keeps_identity` — the result has the source's full key, identity token included.
 -/
 namespace SaVerif.Props.C45
 open SaVerif.Merge
 
 /-- the Session's instance for an identity: identity map, else pending -/
-def destOf (st : St) (k : Nat) : Option Obj :=
-  match st.objs k with
+def destOf (st : St) (k t : Nat) : Option Obj :=
+  match st.objs k t with
   | some o => some o
   | none => st.new k
 
 /-- value an attribute has for the Session before the merge -/
-def baseA (st : St) (k : Nat) : Option Int :=
-  match st.objs k with
+def baseA (st : St) (k t : Nat) : Option Int :=
+  match st.objs k t with
   | some o => o.a.cur
   | none => (st.db k).map (·.1)
 
-def baseB (st : St) (k : Nat) : Option Int :=
-  match st.objs k with
+def baseB (st : St) (k t : Nat) : Option Int :=
+  match st.objs k t with
   | some o => o.b.cur
   | none => (st.db k).map (·.2)
 
@@ -41,25 +42,25 @@ theorem copyAttr_cur (x : Attr) (s : Option Int) :
 
 /-- **merge_copies_loaded** -/
 theorem merge_copies_loaded (st : St) (s : Src) (hn : st.new s.pk = none) :
-    ∃ o', destOf (mergeLoad st s).1 s.pk = some o' ∧
+    ∃ o', destOf (mergeLoad st s).1 s.pk s.tok = some o' ∧
       o'.a.cur = (match s.a with
                   | some v => some v
-                  | none => baseA st s.pk) ∧
+                  | none => baseA st s.pk s.tok) ∧
       o'.b.cur = (match s.b with
                   | some v => some v
-                  | none => baseB st s.pk) := by
+                  | none => baseB st s.pk s.tok) := by
   unfold mergeLoad
   simp only [hn]
-  cases ho : st.objs s.pk with
+  cases ho : st.objs s.pk s.tok with
   | some o =>
-    refine ⟨⟨copyAttr o.a s.a, copyAttr o.b s.b⟩, by simp [destOf], ?_, ?_⟩
+    refine ⟨⟨copyAttr o.a s.a, copyAttr o.b s.b⟩, by simp [destOf, putObj], ?_, ?_⟩
     · simp [copyAttr_cur, baseA, ho]
     · simp [copyAttr_cur, baseB, ho]
   | none =>
     cases hr : st.db s.pk with
     | some r =>
       obtain ⟨va, vb⟩ := r
-      refine ⟨⟨copyAttr (loaded va) s.a, copyAttr (loaded vb) s.b⟩, by simp [destOf], ?_, ?_⟩
+      refine ⟨⟨copyAttr (loaded va) s.a, copyAttr (loaded vb) s.b⟩, by simp [destOf, putObj], ?_, ?_⟩
       · simp [copyAttr_cur, baseA, ho, hr, loaded]
       · simp [copyAttr_cur, baseB, ho, hr, loaded]
     | none =>
@@ -78,10 +79,14 @@ theorem copyAttrNoLoad_idem (x : Attr) (s : Option Int) :
     copyAttrNoLoad (copyAttrNoLoad x s) s = copyAttrNoLoad x s := by
   cases s <;> rfl
 
-theorem upd_upd {α : Type} (f : Nat → α) (k : Nat) (x y : α) :
-    (fun j => if j = k then y else (fun j => if j = k then x else f j) j) = (fun j => if j = k then y else f j) := by
-  funext j
-  by_cases h : j = k <;> simp [h]
+theorem upd_upd (f : Nat → Nat → Option Obj) (k t : Nat) (x y : Obj) :
+    putObj (putObj f k t x) k t y = putObj f k t y := by
+  funext j u
+  unfold putObj
+  by_cases h : j = k ∧ u = t <;> simp [h]
+
+theorem putObj_same (f : Nat → Nat → Option Obj) (k t : Nat) (x : Obj) : putObj f k t x k t = some x := by
+  simp [putObj]
 
 theorem upd_same {α : Type} (f : Nat → α) (k : Nat) (x : α) (h : f k = x) :
     (fun j => if j = k then x else f j) = f := by
@@ -94,7 +99,7 @@ theorem upd_same {α : Type} (f : Nat → α) (k : Nat) (x : α) (h : f k = x) :
     the identity map afterwards), a second merge of an equal source returns the same
     result, emits no SQL and leaves the Session exactly as it is. -/
 theorem merge_idempotent (st : St) (s : Src) (hn : st.new s.pk = none)
-    (hfound : ((mergeLoad st s).1.objs s.pk).isSome = true) :
+    (hfound : ((mergeLoad st s).1.objs s.pk s.tok).isSome = true) :
     (mergeLoad (mergeLoad st s).1 s).1.objs = (mergeLoad st s).1.objs ∧
     (mergeLoad (mergeLoad st s).1 s).1.new = (mergeLoad st s).1.new ∧
     (mergeLoad (mergeLoad st s).1 s).1.db = (mergeLoad st s).1.db ∧
@@ -102,17 +107,17 @@ theorem merge_idempotent (st : St) (s : Src) (hn : st.new s.pk = none)
     (mergeLoad (mergeLoad st s).1 s).2 = (mergeLoad st s).2 := by
   unfold mergeLoad at hfound ⊢
   simp only [hn] at hfound ⊢
-  cases ho : st.objs s.pk with
+  cases ho : st.objs s.pk s.tok with
   | some o =>
-    simp only [ho, hn, if_true, copyAttr_idem]
-    (refine ⟨?_, ?_, ?_, ?_, ?_⟩ <;> first | exact upd_upd _ _ _ _ | trivial | rfl)
+    simp only [ho, hn, putObj_same, copyAttr_idem]
+    (refine ⟨?_, ?_, ?_, ?_, ?_⟩ <;> first | exact upd_upd _ _ _ _ _ | trivial | rfl)
   | none =>
     cases hr : st.db s.pk with
     | some r =>
       obtain ⟨va, vb⟩ := r
-      simp only [ho, hr, hn, if_true, copyAttr_idem]
-      (refine ⟨?_, ?_, ?_, ?_, ?_⟩ <;> first | exact upd_upd _ _ _ _ | trivial | rfl)
-    | none => simp [ho, hr] at hfound
+      simp only [ho, hr, hn, putObj_same, copyAttr_idem]
+      (refine ⟨?_, ?_, ?_, ?_, ?_⟩ <;> first | exact upd_upd _ _ _ _ _ | trivial | rfl)
+    | none => simp [ho, hr, hn] at hfound
 
 /-- a second `merge(load=False)` of an equal source -/
 theorem merge_noload_idempotent (st : St) (s : Src) (hn : st.new s.pk = none) :
@@ -124,18 +129,18 @@ theorem merge_noload_idempotent (st : St) (s : Src) (hn : st.new s.pk = none) :
   simp only [hn]
   by_cases hp : s.persistent = true
   · simp only [hp, Bool.not_true, Bool.false_eq_true, if_false]
-    cases ho : st.objs s.pk with
+    cases ho : st.objs s.pk s.tok with
     | some o =>
-      simp only [hn, hp, Bool.not_true, Bool.false_eq_true, if_false, if_true, copyAttrNoLoad_idem]
-      (refine ⟨?_, ?_, ?_, ?_⟩ <;> first | exact upd_upd _ _ _ _ | trivial | rfl)
+      simp only [hn, hp, Bool.not_true, Bool.false_eq_true, if_false, putObj_same, copyAttrNoLoad_idem]
+      (refine ⟨?_, ?_, ?_, ?_⟩ <;> first | exact upd_upd _ _ _ _ _ | trivial | rfl)
     | none =>
       by_cases hm : s.modified = true
       · simp only [hm, if_true, hn, hp, Bool.not_true, Bool.false_eq_true, if_false, ho]
-        (refine ⟨?_, ?_, ?_, ?_⟩ <;> first | exact upd_upd _ _ _ _ | trivial | rfl)
-      · simp only [hm, Bool.false_eq_true, if_false, hn, hp, Bool.not_true, if_true, copyAttrNoLoad_idem]
-        (refine ⟨?_, ?_, ?_, ?_⟩ <;> first | exact upd_upd _ _ _ _ | trivial | rfl)
+        (refine ⟨?_, ?_, ?_, ?_⟩ <;> first | exact upd_upd _ _ _ _ _ | trivial | rfl)
+      · simp only [hm, Bool.false_eq_true, if_false, hn, hp, Bool.not_true, putObj_same, copyAttrNoLoad_idem]
+        (refine ⟨?_, ?_, ?_, ?_⟩ <;> first | exact upd_upd _ _ _ _ _ | trivial | rfl)
   · simp only [hp, Bool.not_false, if_true, hn]
-    (refine ⟨?_, ?_, ?_, ?_⟩ <;> first | exact upd_upd _ _ _ _ | trivial | rfl)
+    (refine ⟨?_, ?_, ?_, ?_⟩ <;> first | exact upd_upd _ _ _ _ _ | trivial | rfl)
 
 theorem copyAttrNoLoad_clean (x : Attr) (s : Option Int) : (copyAttrNoLoad x s).netChange = false := by
   cases s <;> rfl
@@ -145,36 +150,36 @@ theorem copyAttrNoLoad_clean (x : Attr) (s : Option Int) : (copyAttrNoLoad x s).
 theorem merge_noload_no_sql_no_change (st : St) (s : Src) :
     (mergeNoLoad st s).1.sql = st.sql ∧ (mergeNoLoad st s).1.db = st.db ∧
     (mergeNoLoad st s).1.new = st.new ∧
-    (∀ nw a b d, (mergeNoLoad st s).2 = .merged nw a b d → d = false) := by
+    (∀ nw t a b d, (mergeNoLoad st s).2 = .merged nw t a b d → d = false) := by
   unfold mergeNoLoad
   cases st.new s.pk with
-  | some _ => (refine ⟨?_, ?_, ?_, ?_⟩ <;> first | trivial | rfl | (intro _ _ _ _ h; cases h))
+  | some _ => (refine ⟨?_, ?_, ?_, ?_⟩ <;> first | trivial | rfl | (intro _ _ _ _ _ h; cases h))
   | none =>
     simp only
     by_cases hp : s.persistent = true
     · simp only [hp, Bool.not_true, Bool.false_eq_true, if_false]
-      cases st.objs s.pk with
+      cases st.objs s.pk s.tok with
       | some o =>
         refine ⟨by first | trivial | rfl, by first | trivial | rfl, by first | trivial | rfl, ?_⟩
-        intro nw a b d h
+        intro nw t a b d h
         simp only [outOf, Obj.netChange, copyAttrNoLoad_clean, Bool.or_self, Out.merged.injEq] at h
-        exact h.2.2.2.symm
+        exact h.2.2.2.2.symm
       | none =>
         simp only
         by_cases hm : s.modified = true
-        · simp only [hm, if_true]; (refine ⟨?_, ?_, ?_, ?_⟩ <;> first | trivial | rfl | (intro _ _ _ _ h; cases h))
+        · simp only [hm, if_true]; (refine ⟨?_, ?_, ?_, ?_⟩ <;> first | trivial | rfl | (intro _ _ _ _ _ h; cases h))
         · simp only [hm, Bool.false_eq_true, if_false]
           refine ⟨by first | trivial | rfl, by first | trivial | rfl, by first | trivial | rfl, ?_⟩
-          intro nw a b d h
+          intro nw t a b d h
           simp only [outOf, Obj.netChange, copyAttrNoLoad_clean, Bool.or_self, Out.merged.injEq] at h
-          exact h.2.2.2.symm
+          exact h.2.2.2.2.symm
     · simp only [hp, Bool.not_false, if_true]
-      (refine ⟨?_, ?_, ?_, ?_⟩ <;> first | trivial | rfl | (intro _ _ _ _ h; cases h))
+      (refine ⟨?_, ?_, ?_, ?_⟩ <;> first | trivial | rfl | (intro _ _ _ _ _ h; cases h))
 
 /-- **merge_noload_rejects**: transient sources, and dirty sources whose identity is not
     in the Session, are refused -/
 theorem merge_noload_rejects (st : St) (s : Src) (hn : st.new s.pk = none)
-    (h : s.persistent = false ∨ (st.objs s.pk = none ∧ s.modified = true)) :
+    (h : s.persistent = false ∨ (st.objs s.pk s.tok = none ∧ s.modified = true)) :
     (mergeNoLoad st s).2 = .error ∧ (mergeNoLoad st s).1 = st := by
   unfold mergeNoLoad
   simp only [hn]
@@ -188,33 +193,71 @@ theorem merge_noload_rejects (st : St) (s : Src) (hn : st.new s.pk = none)
     identity is already in the Session -/
 theorem merge_sql_bound (st : St) (s : Src) :
     (mergeLoad st s).1.sql ≤ st.sql + 1 ∧
-    ((st.objs s.pk).isSome = true → (mergeLoad st s).1.sql = st.sql) := by
+    ((st.objs s.pk s.tok).isSome = true → (mergeLoad st s).1.sql = st.sql) := by
   unfold mergeLoad
   cases st.new s.pk with
   | some _ => exact ⟨Nat.le_succ _, fun _ => rfl⟩
   | none =>
-    cases ho : st.objs s.pk with
+    cases ho : st.objs s.pk s.tok with
     | some o => exact ⟨Nat.le_succ _, fun _ => rfl⟩
     | none =>
       cases st.db s.pk with
       | some r => obtain ⟨va, vb⟩ := r; exact ⟨Nat.le_refl _, fun h => by cases h⟩
       | none => exact ⟨Nat.le_refl _, fun h => by cases h⟩
 
+/-- **merge_keeps_identity**: the instance merge works on and returns carries the
+    source's full identity key — primary key AND identity token — unless a new pending
+    instance had to be created (no row): in particular it never falls back to the
+    token-less identity of the same primary key. -/
+theorem merge_keeps_identity (st : St) (s : Src) (nw : Bool) (t : Nat) (a b : Option Int) (d : Bool)
+    (h : (mergeLoad st s).2 = .merged nw t a b d) (hold : nw = false) :
+    t = s.tok ∧ ((mergeLoad st s).1.objs s.pk s.tok).isSome = true ∧
+    ∀ u, u ≠ s.tok → (mergeLoad st s).1.objs s.pk u = st.objs s.pk u := by
+  unfold mergeLoad at h ⊢
+  cases hn : st.new s.pk with
+  | some _ => simp [hn] at h
+  | none =>
+    simp only [hn] at h ⊢
+    cases ho : st.objs s.pk s.tok with
+    | some o =>
+      simp only [ho, outOf, Out.merged.injEq] at h
+      refine ⟨h.2.1.symm, by simp [putObj], ?_⟩
+      intro u hu; simp [putObj, hu]
+    | none =>
+      cases hr : st.db s.pk with
+      | some r =>
+        obtain ⟨va, vb⟩ := r
+        simp only [ho, hr, outOf, Out.merged.injEq] at h
+        refine ⟨h.2.1.symm, by simp [putObj], ?_⟩
+        intro u hu; simp [putObj, hu]
+      | none =>
+        simp only [ho, hr, Out.merged.injEq] at h
+        rw [hold] at h
+        exact absurd h.1 (by simp)
+
 /-! ## non-vacuity -/
 
 /-- partial source onto a loaded, modified object: loaded attribute copied, the other
     one (pending value 11) kept; second merge changes nothing -/
 example :
-    let st := run 1 St.init [.insert 0 1 2, .load 0, .set 0 true 11]
-    let s : Src := ⟨0, some 5, none, true, false⟩
-    (mergeLoad st s).2 = .merged false (some 5) (some 11) true ∧
-    (mergeLoad (mergeLoad st s).1 s).2 = .merged false (some 5) (some 11) true ∧
-    ((mergeLoad st s).1.objs 0).isSome = true := by decide
+    let st := run 1 St.init [.insert 0 1 2, .load 0 0, .set 0 0 true 11]
+    let s : Src := ⟨0, 0, some 5, none, true, false⟩
+    (mergeLoad st s).2 = .merged false 0 (some 5) (some 11) true ∧
+    (mergeLoad (mergeLoad st s).1 s).2 = .merged false 0 (some 5) (some 11) true ∧
+    ((mergeLoad st s).1.objs 0 0).isSome = true := by decide
 
 /-- load=False on an identity the Session does not hold: new persistent instance, no SQL -/
 example :
     let st := run 1 St.init [.insert 0 1 2]
-    (mergeNoLoad st ⟨0, some 5, none, true, false⟩).2 = .merged true (some 5) none false ∧
-    (mergeNoLoad st ⟨0, some 5, none, true, false⟩).1.sql = st.sql := by decide
+    (mergeNoLoad st ⟨0, 0, some 5, none, true, false⟩).2 = .merged true 0 (some 5) none false ∧
+    (mergeNoLoad st ⟨0, 0, some 5, none, true, false⟩).1.sql = st.sql := by decide
+
+/-- a source whose key carries identity token 1, Session holds only the token-less instance:
+    a second instance (pk 0, token 1) is loaded and returned, the other one is untouched -/
+example :
+    let st := run 1 St.init [.insert 0 1 2, .load 0 0]
+    let s : Src := ⟨0, 1, some 5, none, true, false⟩
+    (mergeLoad st s).2 = .merged false 1 (some 5) (some 2) true ∧
+    ((mergeLoad st s).1.objs 0 0).map (·.a.cur) = some (some 1) := by decide
 
 end SaVerif.Props.C45
